@@ -2,4 +2,5 @@
 #include <crab/domains/split_oct.hpp>
 using namespace simd;
 using D = split_oct_domain<z_number, varname_t, G_int64>;
-SIM_REGISTER_DOMAIN(oct_split, D, "oct_split", CAP_EXACT_EXPORT | CAP_INT64 | CAP_NTOW | CAP_CORE)
+SIM_REGISTER_DOMAIN(oct_split, D, "oct_split",
+                    CAP_EXACT_EXPORT | CAP_INT64 | CAP_NTOW | CAP_CORE | CAP_BACKWARD)
